@@ -16,6 +16,8 @@ KINDS = {
     "calls": ({"CallStatement"}, False),
     "vars": ({"Variable"}, False),
     "types": ({"TypeExpression"}, False),
+    # a predicate over expressions that looks for binary expressions with a missing operand (parser::reports_to_parent)
+    "binops": ({"BinaryExpression"}, False),
 }
 
 # (kind, ADT, variant-or-None, field) -> reason
@@ -27,6 +29,12 @@ EXCEPTIONS = {
         "statements are checked by table::semantic::analyze, not by the table builder",
     ("build", "ProcedureDeclaration", None, "info"): "n/a",
     ("analyze", "IfStatement", None, "info"): "n/a",
+    ("binops", "Expression", "Unary", None):
+        "parse_unary wraps its operand in info(..): an error reported inside is owned by the UnaryExpression (ERROR-OWNER)",
+    ("binops", "Expression", "Bracketed", None):
+        "parse_bracketed wraps its inner expression in info(..): an error reported inside is owned by the BracketedExpression",
+    ("binops", "Expression", "Variable", None):
+        "the index of an array access is parsed through Expression::parse under the access' own info(..)",
 }
 
 
@@ -48,6 +56,9 @@ def walkers(prog):
             yield b, "analyze"
         elif tr and tr.endswith("build::TableBuilder") and is_ast:
             yield b, "build"
+        elif c.name == "spl_frontend" and b["k"] == "fn" and b["p"].startswith("spl_frontend::parser") and "sig_in" in b and \
+                [c.tstr(t_).replace(" ", "") for t_ in b["sig_in"]] == ["&ast::Expression"] and c.tstr(b["sig_out"]) == "bool":
+            yield b, "binops"
         else:
             k = feature_walker_kind(prog, b)
             if k:
@@ -229,6 +240,33 @@ def rule_traverse(prog):
         targets, handle_error = KINDS[kind]
         seen_kinds[kind] = seen_kinds.get(kind, 0) + 1
         item = b["d"]
+        if kind == "binops":
+            # a search through an expression tree: every operand field of a binary expression is searched itself - handed to the walker
+            # again, or made the subject of the next loop iteration - not merely inspected
+            bin_adt = prog.adts.get(AST + "BinaryExpression")
+            for f in ((bin_adt or {}).get("variants") or [{"fields": []}])[0]["fields"]:
+                if not reach.type_reaches(fc, f["t"], targets):
+                    continue
+                searched = False
+                for call in hir.nodes(b["body"], "Call"):
+                    if (hir.callee(call) or "") == b["p"] and any(
+                            x.get("k") == "Field" and x["name"] == f["name"] for a_ in call["args"] for x in hir.nodes(a_)):
+                        searched = True
+                loop_vars = set()
+                for lp in hir.nodes(b["body"]):
+                    if lp.get("k") in ("While", "Loop", "ForLoop"):
+                        for le in hir.nodes(lp.get("cond") or lp.get("body"), "LetExpr"):
+                            pl_ = hir.path_local(hir.strip_ref(le["init"]))
+                            if pl_:
+                                loop_vars.add(pl_["id"])
+                for as_ in hir.nodes(b["body"], "Assign"):
+                    pl_ = hir.path_local(hir.strip(as_["l"]))
+                    if pl_ and pl_["id"] in loop_vars and any(x.get("k") == "Field" and x["name"] == f["name"] for x in hir.nodes(as_["r"])):
+                        searched = True
+                out.add(item, "operand `%s` of a binary expression is searched, not only inspected" % f["name"], searched, c.loc(b["sp"]),
+                        "`%s` is looked at but never searched itself: a missing operand deeper inside it (`1 + 2 * ;`: the right operand of `+` "
+                        "is a product whose own right operand is missing) is not found, the expression is reused and its diagnostic disappears"
+                        % f["name"], (kind,))
         # ---- enum matches
         for m in hir.nodes(b["body"], "Match"):
             if m["src"] != "match" or "matches!" in (m.get("mx") or []):
@@ -254,6 +292,8 @@ def rule_traverse(prog):
                 if not reaching and not is_err:
                     continue
                 what = "%s::%s is descended into" % (last(ep), vname)
+                if vname not in covered and (kind, last(ep), vname, None) in EXCEPTIONS:
+                    continue
                 if vname not in covered:
                     out.add(item, what, False, c.loc(m["sp"]),
                             "variant %s::%s can contain %s but is swallowed by a wildcard arm: whatever is "
